@@ -434,8 +434,26 @@ def e2e_case(res, prep, d, case, samples):
         return tag + ":" + hashlib.sha1(lemu.encode()).hexdigest()[:12]
 
     outs = []
-    for variant, order in (("canonical", None), ("shuffled", case["order"])):
+    for variant, order in (("canonical", None), ("shuffled", case["order"]), ("symlink", None)):
         write_trace(td, st, order=order)
+        if variant == "symlink":
+            # the same trace with one loom directory (or the whole trace directory) reached through a
+            # symbolic link: every stream must still be found
+            import shutil
+            shutil.rmtree(os.path.join(d, "real"), ignore_errors=True)
+            os.makedirs(os.path.join(d, "real"))
+            lo = sorted(x for x in os.listdir(td) if x.startswith("loom."))
+            if lo and (len(allc) % 2 == 0):
+                src = os.path.join(td, lo[-1])
+                dst = os.path.join(d, "real", lo[-1])
+                os.rename(src, dst)
+                os.symlink(dst, src)
+                res.dist("symlink:loom-dir")
+            else:
+                dst = os.path.join(d, "real", "trace")
+                os.rename(td, dst)
+                os.symlink(dst, td)
+                res.dist("symlink:trace-dir")
         # ---------------- ovnidump ----------------
         rc, out, err = run_tool(dump_exe, [td])
         if rc != 0:
@@ -519,9 +537,14 @@ def e2e_case(res, prep, d, case, samples):
                                         "prv_state_records(row,time)": st4[:8], "model": wantp[:8]})
                         res.sample(samples[-1])
         outs.append((out, prv))
-    if len(outs) == 2 and outs[0] != outs[1]:
+    if len(outs) >= 2 and outs[0] != outs[1]:
         viol.append((key("enum-order"), "output depends on the creation order of the stream directories "
                      f"(order {case['order']}): ovnidump equal={outs[0][0] == outs[1][0]} thread.prv equal={outs[0][1] == outs[1][1]}"))
+    if len(outs) == 3 and outs[0] != outs[2]:
+        viol.append((key("symlink"), "output differs when part of the trace is reached through a symbolic link: "
+                     f"ovnidump equal={outs[0][0] == outs[2][0]} thread.prv equal={outs[0][1] == outs[2][1]}"))
+    if os.path.islink(td):
+        os.unlink(td)
     return viol
 
 
